@@ -486,7 +486,7 @@ func genCase0(t *rapid.T) Case {
 	}
 
 	hintClient := rapid.SampledFrom([]string{clientA, clientA, clientB}).Draw(t, "hintclient")
-	user := rapid.SampledFrom(vkit.UserIDs).Draw(t, "user")
+	user := rapid.SampledFrom(vkit.AllUserIDs).Draw(t, "user")
 	h := &c.Hint
 	h.Class = class
 	forged := func() {
